@@ -774,6 +774,19 @@ class Exec:
         if rv.startswith('[') and rv.endswith(']'):
             parts = split_top(rv[1:-1])
             return Val(tuple(self.operand(st, p) for p in parts), 'array')
+        m = re.match(r'^((?:\w+::)*[A-Z]\w*)(?:::<.*?>)?\((.*)\)$', rv, re.S)
+        if m and m.group(1).split('::')[-1] not in self.BINOPS + ('Neg', 'Not', 'Len', 'PtrMetadata', 'CopyForDeref', 'ShallowInitBox', 'UbChecks', 'SizeOf', 'AlignOf', 'OffsetOf', 'Cmp', 'Offset', 'Some', 'Ok', 'Err'):
+            # tuple-struct constructor, e.g. R(move _3)
+            fields = {}
+            for i, part in enumerate(split_top(m.group(2))):
+                self.hint = None
+                try:
+                    fields[str(i)] = self.operand(st, part)
+                except Refuse:
+                    fields[str(i)] = Opaque('?' + part.strip(), '?')
+            o = Opaque('struct:' + m.group(1), 'struct:' + m.group(1))
+            o.meta = fields
+            return o
         m = re.match(r'^([\w:]+)(?:::<.*?>)? \{ (.*) \}$', rv, re.S)
         if m:
             fields = {}
